@@ -126,18 +126,20 @@ impl Scheduler for SimScheduler {
                     if ids.contains(&c) {
                         c
                     } else {
+                        // never stop an execution early (unfinished coroutines cannot be unwound safely):
+                        // note the divergence and let the run finish under oldest-first
                         let mut r = self.rec.lock().unwrap();
                         if r.replay_diverged.is_none() {
                             r.replay_diverged = Some(format!("step {}: recorded task {} not runnable (runnable {:?})", self.pos - 1, c, ids));
                         }
-                        return None;
+                        *ids.iter().min().unwrap()
                     }
                 } else {
                     let mut r = self.rec.lock().unwrap();
                     if r.replay_diverged.is_none() {
                         r.replay_diverged = Some(format!("schedule exhausted at step {}", self.pos));
                     }
-                    return None;
+                    *ids.iter().min().unwrap()
                 }
             }
         };
@@ -157,6 +159,7 @@ impl Scheduler for SimScheduler {
                     .wrapping_mul(0x0000_0100_0000_01B3);
             }
         }
+        rfsm_verif_seams::rec::set_current_task(choice);
         Some(TaskId::from(choice))
     }
 
